@@ -676,7 +676,15 @@ def rule_len16(R):
              % adt, where=b.span)
 
 
+def rule_correlation(R):
+    """PUBLISH carries every requested property *including correlation data*: the builder keeps a correlation entry
+    when user properties are installed before or after it (shared with C20)"""
+    from .c20 import clause_correlation_kept
+    clause_correlation_kept(R, "corr")
+
+
 def run(R):
+    R.rule("corr", rule_correlation)
     R.rule("props", rule_props)
     R.rule("block", rule_block)
     R.rule("varint", rule_varint)
